@@ -22,7 +22,13 @@ ID = "C07"
 LEVEL = "exploration"
 BUDGET = {"quick": 3000, "thorough": 300000}
 ENUM_BOUND = {"quick": 2500, "thorough": 120000}
-RUN_TIMEOUT = 30.0     # a case takes well under a millisecond; an executor silent for this long is stuck
+# A case takes well under a millisecond; an executor silent for RUN_TIMEOUT seconds is stuck (e.g. a longjmp
+# to a stale buffer looping forever).  Once a process has seen two such hangs it waits less for further ones,
+# so that shrinking a hanging program does not take hours; every reported case is re-run three times by the
+# core in the parent process before it counts.
+RUN_TIMEOUT = 10.0
+RUN_TIMEOUT_AFTER_HANGS = 3.0
+_hangs = [0]
 MAX_DEPTH = 6
 MAX_NODES = 40
 RULE = ("case = 1..4 program trees (Seq | Try(filter set of 1..3 kinds or catch-all) | Throw(kind) | Call | Mark | "
@@ -369,7 +375,9 @@ def _walk(t):
 def run_case(ctx, case):
     enc = encode(case)
     ex = ctx.executor("ex_exc_plain" if case.get("build") == "plain" else "ex_exc")
-    obs = ex.run("\n".join(e[0] for e in enc), timeout=RUN_TIMEOUT)
+    obs = ex.run("\n".join(e[0] for e in enc), timeout=RUN_TIMEOUT if _hangs[0] < 2 else RUN_TIMEOUT_AFTER_HANGS)
+    if obs and obs[-1] == "HANG":
+        _hangs[0] += 1
     events = set()
     nontrivial = False
     for (_, num, r, trace, ev) in enc:
